@@ -84,7 +84,10 @@ func nextLetters(e *env, maxCands int, maxVersion uint64) []L {
 			}
 		}
 		if len(ic) == 0 && len(sc) > 0 {
-			out = append(out, L{Op: "commit", V: v, Batch: "add", Type: "io"}, L{Op: "commit", V: v, Batch: "add2", Type: "io"})
+			out = append(out, L{Op: "commit", V: v, Batch: "add", Type: "io"}, L{Op: "commit", V: v, Batch: "addshared", Type: "io"})
+			if thoroughTier {
+				out = append(out, L{Op: "commit", V: v, Batch: "add2", Type: "io"})
+			}
 		}
 		for i := range sc {
 			out = append(out, L{Op: "finalize", V: v, Choice: i})
@@ -120,7 +123,10 @@ func stateKeyLong(e *env) string {
 	return sb.String()
 }
 
+var thoroughTier bool
+
 func runC06(r *ev.Run) {
+	thoroughTier = r.Thorough()
 	if r.Replay != "" {
 		v, err := ev.LoadReplay(r.Replay)
 		if err != nil {
@@ -180,7 +186,11 @@ func runC06(r *ev.Run) {
 						if strings.HasPrefix(what, "harness:") {
 							r.HarnessError("%s", what)
 						} else {
-							r.Violate(ev.Violation{Engine: "dbmc", Key: fmt.Sprintf("c06 %s [%s]", backend, historyString(nh)), What: fmt.Sprintf("%s, history [%s]: %s", backend, historyString(nh), what), Artefact: c06Artefact{Backend: backend, History: nh}})
+							tag := ""
+							if strings.Contains(historyString(nh), "addshared,io") {
+								tag = " cross-type-leaf-sharing"
+							}
+							r.Violate(ev.Violation{Engine: "dbmc", Key: fmt.Sprintf("c06 %s%s [%s]", backend, tag, historyString(nh)), What: fmt.Sprintf("%s, history [%s]: %s", backend, historyString(nh), what), Artefact: c06Artefact{Backend: backend, History: nh}})
 						}
 						if e != nil {
 							e.ndb.Close()
